@@ -2,6 +2,8 @@
 import sys
 
 from sa import report, rules_sibling as RSB, rules_read as RD, rules_opts as RO, rules_order as RO2
+from sa import rules_extra as RX
+from sa import rules_reader as RRD
 
 
 def run(ctx, repo):
@@ -27,7 +29,10 @@ def run(ctx, repo):
     RO.r_option_plumbing(ctx, repo)
     RSB.r_parser_lookahead(ctx, repo)
     RSB.r_simple_key_limit(ctx, repo)
-
+    RX.r_docmarker_column0(ctx, repo)
+    # both back-ends must agree on what ends the input: libyaml's read handler contract is "0 bytes read"; the Python
+    # reader must likewise declare end of input only on an empty read (a short read is not the end)
+    RRD.r_incremental_decode(ctx, repo)
 
 if __name__ == '__main__':
     sys.exit(report.main('C06', 'other', run))
